@@ -58,17 +58,96 @@ PACKAGE_CLASSES = set()      # classes defined in the package other than Node (f
 COLLECTOR_PARAMS = set()     # (module, function, parameter): every call site in the package passes a fresh local / a collector of the caller
 
 
+FRESH_RETURNING = set()      # simple names of package functions all of whose definitions return only fresh objects
+
+
+def is_fresh_expr(v, fresh):
+    if isinstance(v, (ast.List, ast.Dict, ast.ListComp, ast.DictComp, ast.SetComp, ast.Constant, ast.JoinedStr, ast.BinOp, ast.Tuple, ast.Set)):
+        return True
+    if isinstance(v, ast.Name):
+        return v.id in fresh
+    if isinstance(v, ast.IfExp):
+        return is_fresh_expr(v.body, fresh) and is_fresh_expr(v.orelse, fresh)
+    if isinstance(v, ast.Call):
+        if isinstance(v.func, ast.Name):
+            return v.func.id in FRESH_CALLS or v.func.id in PACKAGE_CLASSES or v.func.id in FRESH_RETURNING
+        if isinstance(v.func, ast.Attribute):
+            return v.func.attr in FRESH_METHODS or v.func.attr in FRESH_RETURNING
+    return False
+
+
 def fresh_locals(fn):
-    fresh = set()
+    """local names EVERY binding of which is a fresh object (least fixed point, so that `acc = a if c else b` with fresh a, b counts).
+    A name that is also bound by a loop, a with / except clause, an unpacking or as a parameter is not fresh."""
+    binds, tainted = {}, set()
     for n in ast.walk(fn):
-        if isinstance(n, ast.Assign) and len(n.targets) == 1 and isinstance(n.targets[0], ast.Name):
-            v = n.value
-            if isinstance(v, (ast.List, ast.Dict, ast.ListComp, ast.DictComp, ast.Constant, ast.JoinedStr, ast.BinOp, ast.Tuple, ast.Set)) or \
-               (isinstance(v, ast.Call) and isinstance(v.func, ast.Name) and (v.func.id in FRESH_CALLS or v.func.id in PACKAGE_CLASSES)) or \
-               (isinstance(v, ast.Call) and isinstance(v.func, ast.Attribute) and v.func.attr in FRESH_METHODS):
-                fresh.add(n.targets[0].id)
-    params = {a.arg for a in fn.args.args + fn.args.kwonlyargs}
-    return fresh - params
+        if isinstance(n, ast.Assign):
+            for t in n.targets:
+                if isinstance(t, ast.Name):
+                    binds.setdefault(t.id, []).append(n.value)
+                else:
+                    for m in ast.walk(t):
+                        if isinstance(m, ast.Name) and isinstance(m.ctx, ast.Store):
+                            tainted.add(m.id)
+        elif isinstance(n, ast.AnnAssign) and isinstance(n.target, ast.Name):
+            if n.value is not None:
+                binds.setdefault(n.target.id, []).append(n.value)
+        elif isinstance(n, ast.NamedExpr) and isinstance(n.target, ast.Name):
+            binds.setdefault(n.target.id, []).append(n.value)
+        elif isinstance(n, (ast.For, ast.AsyncFor, ast.comprehension)):
+            if not isinstance(n, ast.comprehension):          # comprehension variables live in their own scope
+                for m in ast.walk(n.target):
+                    if isinstance(m, ast.Name):
+                        tainted.add(m.id)
+        elif isinstance(n, (ast.With, ast.AsyncWith)):
+            for it in n.items:
+                if it.optional_vars is not None:
+                    for m in ast.walk(it.optional_vars):
+                        if isinstance(m, ast.Name):
+                            tainted.add(m.id)
+        elif isinstance(n, ast.ExceptHandler) and n.name:
+            tainted.add(n.name)
+        elif isinstance(n, (ast.Global, ast.Nonlocal)):
+            tainted.update(n.names)
+    a = fn.args
+    params = {x.arg for x in a.posonlyargs + a.args + a.kwonlyargs} | ({a.vararg.arg} if a.vararg else set()) | ({a.kwarg.arg} if a.kwarg else set())
+    fresh, changed = set(), True
+    while changed:
+        changed = False
+        for name, vals in binds.items():
+            if name in fresh or name in tainted or name in params:
+                continue
+            if all(is_fresh_expr(v, fresh) for v in vals):
+                fresh.add(name); changed = True
+    return fresh
+
+
+def compute_fresh_returning(mods):
+    """greatest fixed point over the package: a simple name is fresh-returning when every function of that name returns, on every
+    `return <value>`, a fresh object of its own (and is not a generator)"""
+    funcs = {}
+    for rel, fns in mods.items():
+        for q, (fn, cls) in fns.items():
+            funcs.setdefault(q.split(".")[-1], []).append(fn)
+    FRESH_RETURNING.clear()
+    FRESH_RETURNING.update(funcs.keys())
+    changed = True
+    while changed:
+        changed = False
+        for name in list(FRESH_RETURNING):
+            ok = True
+            for fn in funcs[name]:
+                own = [n for n in ast.walk(fn)]
+                if any(isinstance(n, (ast.Yield, ast.YieldFrom)) for n in own):
+                    ok = False; break
+                rets = [n for n in own if isinstance(n, ast.Return) and n.value is not None]
+                if not rets:
+                    ok = False; break
+                fl = fresh_locals(fn)
+                if not all(is_fresh_expr(r.value, fl) and not (isinstance(r.value, ast.Constant) and False) for r in rets):
+                    ok = False; break
+            if not ok:
+                FRESH_RETURNING.discard(name); changed = True
 
 
 def alias_map(fn):
@@ -283,6 +362,7 @@ def inventory(repo):
                     for n2 in ast.walk(ast.parse(f2.read())):
                         if isinstance(n2, ast.ClassDef) and n2.name != "Node":
                             PACKAGE_CLASSES.add(n2.name)
+    compute_fresh_returning(mods)
     COLLECTOR_PARAMS.update(compute_collector_params(mods))
     # name-based closure over the whole package (code may be moved between modules and re-exported)
     index = {}
